@@ -439,6 +439,11 @@ def enum_exprs(nargs, argmax, outmax, part=0, nparts=1):
                     yield case
 
 
+def _uni(draw, st, hi):
+    """Uniform integer in [0, hi] (st.integers is biased towards the ends of its range)."""
+    return draw(st.sampled_from(range(hi + 1)))
+
+
 def expr_cases(max_args=3, max_dims=4):
     from hypothesis import strategies as st
 
@@ -450,15 +455,15 @@ def expr_cases(max_args=3, max_dims=4):
         for _ in range(nargs):
             n = draw(st.integers(0, max_dims))
             ind = list(draw(st.permutations(range(NSYM)))[:n])
-            nb = [d[s] if (d[s] == 1 or draw(st.integers(0, 3)) > 0) else 1 for s in ind]
+            nb = [d[s] if (d[s] == 1 or _uni(draw, st, 3) > 0) else 1 for s in ind]
             args.append([ind, nb])
         used = sorted({s for ind, _ in args for s in ind})
         # output: mostly the used symbols (some dropped = contraction), sometimes extra symbols (= new axes)
-        out = [s for s in range(NSYM) if (s in used and draw(st.integers(0, 4)) > 0) or (s not in used and draw(st.integers(0, 5)) == 0)]
+        out = [s for s in range(NSYM) if (s in used and _uni(draw, st, 4) > 0) or (s not in used and _uni(draw, st, 5) == 0)]
         out = list(draw(st.permutations(out)))
         pos = set(out)
         # contractions with > 1 block must be rejected; make the accepted kind frequent too
-        if draw(st.integers(0, 2)) > 0:
+        if _uni(draw, st, 2) > 0:
             for ind, nb in args:
                 for p, s in enumerate(ind):
                     if s not in pos:
@@ -469,7 +474,7 @@ def expr_cases(max_args=3, max_dims=4):
             case["outstr"] = True
         if new and draw(st.booleans()):
             case["newtuple"] = True
-        if nargs >= 2 and draw(st.integers(0, 7)) == 0:
+        if nargs >= 2 and _uni(draw, st, 7) == 0:
             # the same array passed twice (same numblocks by definition)
             a, b = draw(st.permutations(range(nargs)))[:2]
             if len(args[a][0]) == len(args[b][0]):
@@ -857,15 +862,18 @@ def term_diff(a, b):
 
 
 def _legacy_region(tree, g):
-    """Defect 17 (C02): simple_optimize_dag may fuse a single-input successor whose first key argument is a list or
-    iterator when task counts are equal.  Over-approximated: any such successor of a blockwise producer."""
+    """Defect 17 (C02): simple_optimize_dag fuses a single-input successor into its producer whenever the task counts
+    are equal, also when the successor's first key argument is a list or iterator (fuse() then feeds that collection
+    to the producer's key function).  The region: such a successor of a blockwise producer with equal task counts
+    (the optimizer's further conditions - single consumer etc. - are not mirrored, so this over-approximates)."""
     prod = {}
     for node in tree["nodes"]:
         for o in node_outputs(node):
             prod[o] = node
     for node in tree["nodes"]:
         if node["shape"] in ("list", "iter", "gen", "cat") and len(node["ins"]) == 1 and node["ins"][0] in prod:
-            return True
+            if g[node["ins"][0]] == g[node_outputs(node)[0]]:
+                return True
     return False
 
 
@@ -1030,14 +1038,14 @@ def tree_cases(max_nodes=6):
         def pick(cands):
             cands = sorted(cands, key=lambda a: (uses[a] > 0, -order.index(a)))
             # strong preference for the most recent unused array: that is what makes chains deep
-            if draw(st.integers(0, 3)) > 0:
+            if _uni(draw, st, 3) > 0:
                 return cands[0]
             return draw(st.sampled_from(cands))
 
         def more(a0, n_extra, same):
             ins = [a0]
             for _ in range(n_extra):
-                r = draw(st.integers(0, 5))
+                r = _uni(draw, st, 5)
                 if r == 0:
                     ins.append(draw(st.sampled_from(ins)))  # repeated predecessor
                 else:
@@ -1080,11 +1088,11 @@ def tree_cases(max_nodes=6):
                     ins.pop()
                 n = sum(g[a] for a in ins)
             node["ins"] = ins
-            if draw(st.integers(0, 5 if j == nn - 1 else 15)) == 0:
+            if _uni(draw, st, 7 if j == nn - 1 else 23) == 0:
                 node["nout"] = 2
-            if draw(st.integers(0, 11)) == 0:
+            if _uni(draw, st, 11) == 0:
                 node["fws"] = False
-            if draw(st.integers(0, 14)) == 0:
+            if _uni(draw, st, 14) == 0:
                 node["fwp"] = False
             nodes.append(node)
             for a in ins:
@@ -1094,7 +1102,7 @@ def tree_cases(max_nodes=6):
                 depth[o] = 1 + max(depth[a] for a in ins)
                 order.append(o)
         want = [node_outputs(nodes[-1])[0]]
-        if draw(st.integers(0, 4)) == 0:
+        if _uni(draw, st, 4) == 0:
             extra = draw(st.sampled_from([o for nd in nodes for o in node_outputs(nd)]))
             if extra not in want:
                 want.append(extra)
@@ -1440,7 +1448,7 @@ def check_case(case) -> Outcome:
 
 EXHAUSTIVE = {
     # name: (nargs, argmax, outmax, number of parts)
-    "thorough": [(1, 4, 4, 1), (2, 4, 4, 8), (3, 2, 4, 5)],
+    "thorough": [(1, 4, 4, 1), (2, 4, 4, 10), (3, 2, 4, 4)],
     "quick": [(1, 4, 4, 1), (2, 2, 2, 1)],
 }
 
